@@ -33,8 +33,10 @@ def check(c: Check):
         'primitives of their names, applied to every line; replace substitutes with (pattern, replacement, text) in '
         'their roles, keeps the new-line out of the substitution exactly with -preserve-new-lines and leaves lines '
         'not selected by -at unchanged; filter keeps exactly the matching lines, unchanged; identity returns its '
-        'input; constructor arguments are never cross-wired between the SDV / DDV / ADV / primitive layers. Not '
-        'decided: the meaning of regular expressions and of the str primitives themselves.')
+        'input; constructor arguments are never cross-wired between the SDV / DDV / ADV / primitive layers; the prefix '
+        'reader of equals returns whole lines and stops only when what it returns has reached the minimum; the three '
+        'strip variants give the documented text for every symbolic text (forks on whether a line is empty / blank). '
+        'Not decided: the meaning of regular expressions and of the str primitives themselves.')
     clause_a(c)
     clause_b(c)
     clause_c(c)
